@@ -25,10 +25,11 @@ META = {
     'extractors': ['inherit', 'pyinherit'],
     'technique': ('Lean 4 proof (invariant preserved by every operation, induction over histories and over the '
                   'class tree) + extracted control-flow facts of destroySelf / get / _create / deleteMany / deleteBy '
-                  '+ differential correspondence on histories + raw-table oracle; destroySelf / deleteMany / deleteBy / '
-                  '_create / get of InheritableSQLObject are TRANSLATED from the AST on every run '
-                  '(vlib/extractors/pyinherit.py -> Extracted/PyInherit.lean, deep embedding Model/PyInherit.lean) and the '
-                  'translated programs are proved equal to the hand model by symbolic execution (C15_translated_*)'),
+                  '+ differential correspondence on histories + raw-table oracle; InheritableSQLObject.destroySelf / '
+                  'deleteMany / deleteBy / _create / get are TRANSLATED from the AST on every run '
+                  '(vlib/extractors/pyinherit.py -> Extracted/PyInherit.lean, deep embedding Model/PyInherit.lean with an '
+                  'explicit interface record for the calls into other objects) and the translated programs are proved equal '
+                  'to the hand model by symbolic execution, per level and along the whole class chain (C15_translated_*)'),
     'level_text': ('Theorems C15_*: for every well-formed class tree (any depth, any branching, forests) and every '
                    'history of create / attribute write / set / destroy through any entry level and class-level '
                    'deleteMany / deleteBy, the tables satisfy the no-orphan invariant (C15_no_orphan_inv); get through '
@@ -39,7 +40,13 @@ META = {
                    'deletes remove the rows at every level.  The hand-written model is compared with the real code on '
                    'generated histories (answers, INSERT/DELETE statement order, tables after every step, views through '
                    'every level); five control-flow facts are re-read from the source on every run and the theorems '
-                   'are stated over them.'),
+                   'are stated over them.  The hand model is not only hand-written: the bodies of destroySelf, deleteMany, '
+                   'deleteBy, _create and get of InheritableSQLObject, translated from the AST on this run, are proved to '
+                   'compute the hand model\'s destroyGuarded / destroyInst, deleteMany, deleteBy, insertUp (+ the clean-up '
+                   'after a failed INSERT, for every exception class) and get — for every class tree, every level, every '
+                   'connection and all tables (C15_translated_*_level: one level, the neighbouring level being the model\'s '
+                   'function; C15_translated_*_eq_model: the translated method calling itself along the class chain, by '
+                   'induction over the depth).'),
     'level_note': ('Trusted: Lean kernel; the extractor vlib/extractors/inherit.py; SQLite (joins, integer comparison, '
                    'AUTOINCREMENT id allocation: modelled, cross-checked by execution); the instance cache and the '
                    'per-level cached column values are taken as coherent with the rows (properties C04/C05; exercised '
@@ -48,7 +55,12 @@ META = {
              'non-trivial = the history creates at least one instance of a subclass and uses at least two entry levels; '
              'plus a systematic sweep (every class created x every class as entry level x every operation kind) on the '
              'three-level hierarchy with sibling subclasses'),
-    'trusted': ['SQL semantics of the generated joins / integer comparisons / AUTOINCREMENT (SQLite executed, not verified)',
+    'trusted': ['the AST translator vlib/extractors/pyinherit.py and the reference semantics of the deep embedding '
+                'Model/PyInherit.lean (locals, dict values as insertion-ordered pair lists, for over a snapshot, while with a '
+                'fuel bound, try/except, calls through an interface record)',
+                'the interface assumed of SQLObject.destroySelf / _create / get, the parent class constructor, select / '
+                'selectBy and the sqlmeta attributes: stated in the header of Model/InheritX.lean',
+                'SQL semantics of the generated joins / integer comparisons / AUTOINCREMENT (SQLite executed, not verified)',
                 'instance cache and cached column values coherent with the rows (C04/C05); the model reads the row'],
     'modelled': ['SQLite engine', 'id allocation (AUTOINCREMENT high-water mark per root table, kept by the driver)',
                  'InheritableIteration batching / child prefetch is modelled as one get per selected id',
@@ -58,7 +70,13 @@ META = {
                  'model: which levels are restricted is read from R by raw SELECT and given to the model as data',
                  'connections: a state is a map connection -> tables; a transaction is begin/rollback/commit of the default '
                  'database (file-backed in those cases, so that what bypasses the transaction is committed on its own)'],
-    'assumptions': ['only successful operations plus NotFound / AttributeError are modelled; failure atomicity of a child '
+    'assumptions': ['translated-method theorems: instances are built by _init (cold instance cache: _parent is None before '
+                    'get attaches it); a table without childName column holds no tag; the keywords of _create come in '
+                    'declaration order (a dict is used through lookups only); select / selectBy return exactly the ids the '
+                    'model selects (any order); InheritableSQLMeta.addColumn (getter/setter delegation closures built with '
+                    'eval / nested functions) and InheritableSelectResults.__init__ (join chain) are NOT translated: they '
+                    'stay hand-modelled and tied by the differential correspondence',
+                    'only successful operations plus NotFound / AttributeError are modelled; failure atomicity of a child '
                     'INSERT and of a multi-level set() is property C06',
                     'objects are fetched through a class for every operation (public API); destroying the private '
                     '`_parent` instance directly or assigning the reserved `childName` column is outside the property',
